@@ -1319,6 +1319,11 @@ class Verifier(Exec):
         args = [self.val(st, a) for a in c['args']]
         if isinstance(fv, Opaque):
             # call through a function value: allowed only as a declared effect
+            if not (isinstance(fv.info, tuple) and fv.info and fv.info[0] == 'field'):
+                # a local variable of function type (e.g. assigned one of two literals): the effect names the variable
+                vn_ = self.local_func_name(c['value'])
+                if vn_:
+                    fv = Opaque(fv.term, fv.tid, ('field', vn_))
             return self.effect_call(st, ins, fv, args)
         if isinstance(fv, FuncV) and fv.name.startswith('builtin:'):
             return self.do_builtin(st, ins, fv.name[8:], args, c)
@@ -1344,6 +1349,25 @@ class Verifier(Exec):
                 return self.unknown_call(st, ins, callee)
             return self.contract_call(st, ins, callee, spec, args, fv.bindings)
         return self.unknown_call(st, ins, 'dynamic call')
+
+    def local_func_name(self, ref):
+        """source name of the local variable a register was loaded from (None if it is not such a load)"""
+        if not (isinstance(ref, dict) and ref.get('k') == 'reg'):
+            return None
+        if not hasattr(self, '_defs'):
+            self._defs = {}
+            for b in self.fn['blocks']:
+                for i_ in b['instrs']:
+                    if i_.get('name'):
+                        self._defs[i_['name']] = i_
+        d = self._defs.get(ref['n'])
+        if d and d.get('op') == 'UnOp' and d.get('unop', d.get('operator')) in ('*', 'deref') or (d and d.get('op') == 'Load'):
+            x = d.get('x') or d.get('addr')
+            if isinstance(x, dict) and x.get('k') == 'reg':
+                a = self.allocs.get(x['n'])
+                if a and a.get('comment'):
+                    return a['comment']
+        return None
 
     def effect_check(self, st, kind, fv, what, args=None):
         """declared effects: //@ effect call|send <field> requires E"""
@@ -2506,12 +2530,23 @@ class Verifier(Exec):
         for bi in reach:
             for ins in fn['blocks'][bi]['instrs']:
                 note(ins)
+        # a parameter's spill slot that is written only by the entry block holds the parameter
+        nstores, spill = {}, {}
+        for bi, b in enumerate(fn['blocks']):
+            for ins in b['instrs']:
+                if ins.get('op') == 'Store' and ins['addr'].get('k') == 'reg':
+                    nstores[ins['addr']['n']] = nstores.get(ins['addr']['n'], 0) + 1
+                    if bi == 0 and ins['val'].get('k') == 'param':
+                        spill[ins['addr']['n']] = ins['val']['n']
+        self.region_spill = dict((n, pn) for n, pn in spill.items() if nstores.get(n) == 1 and pn in self.param_vals)
         addrs = []
         for n, ref in sorted(outside.items()):
             if n in self.allocs:
                 a = self.allocs[n]
                 if n in self.cellset:
                     v_ = self.fresh_value('lv:%s' % (a.get('comment') or n), a['elem'])
+                    if n in self.region_spill:
+                        v_ = self.param_vals[self.region_spill[n]]
                     if isinstance(v_, Opaque) and self.kind(a['elem']) in ('func', 'chan') and a.get('comment'):
                         v_ = Opaque(v_.term, v_.tid, ('field', a['comment']))     # effects name it by the variable
                     st.cells[n] = v_
@@ -2532,7 +2567,7 @@ class Verifier(Exec):
             # cells declared before the region but only used in spec expressions
             if n not in st.cells and n not in defined:
                 a = self.allocs[n]
-                st.cells[n] = self.fresh_value('lv:%s' % (a.get('comment') or n), a['elem'])
+                st.cells[n] = self.param_vals[self.region_spill[n]] if n in self.region_spill else self.fresh_value('lv:%s' % (a.get('comment') or n), a['elem'])
         for n, a in sorted(self.allocs.items()):
             # the same for locals that live in the heap (captured by a function literal somewhere)
             if n not in self.cellset and n not in defined and n not in st.regs and a.get('comment'):
@@ -2793,6 +2828,11 @@ class Verifier(Exec):
                             continue
                     else:
                         callee = c_.get('static')
+                        if not callee and not c_.get('invoke') and self.spec and self.spec.effects \
+                                and not any(' modifies ' in (' ' + e_.text + ' ') for e_ in self.spec.effects):
+                            # a call through a function value: only declared effects are allowed (effect_check), and
+                            # none of this function's declared effects modifies anything
+                            continue
                         sp_ = self.find_spec(callee) if callee else None
                         if sp_ is None or sp_.modifies:
                             return None
@@ -2866,6 +2906,15 @@ class Verifier(Exec):
             env['rangelen'] = ('lazy', (lambda b_: (lambda st_: self.val(st_, b_)))(bound))
             auto = Clause('invariant', '0 <= iter && iter <= rangelen', None, 'auto:range')
             invs = [auto] + invs
+        # inside a nested loop, `outer` is the index of the element the nearest enclosing range loop is processing
+        best_ = None
+        for h2_, lp2_ in self.cfg.loops.items():
+            if h2_ != h and h in lp2_.body and (best_ is None or len(lp2_.body) < len(self.cfg.loops[best_].body)):
+                if self.range_index(h2_) is not None:
+                    best_ = h2_
+        if best_ is not None:
+            env = dict(env)
+            env['outer'] = ('lazy', (lambda c_: (lambda st_: st_.cells[c_]))(self.range_index(best_)[0]))
         # 1. invariants on entry
         nauto = len(invs) - (len(spec.invariants) if spec else 0)
         ts_ = [self.eval_clause(cl, st, env, self.old) for cl in invs]
